@@ -4,11 +4,13 @@
 extern "C" {
 #endif
 #define SCH_MAXT 8
-#define SCH_MAXP 8192
-struct sch_pt { unsigned enabled; int chosen; int running; };
+#define SCH_MAXP 262144
+struct sch_pt { unsigned enabled; int chosen; int running; int kind; unsigned site; };   /* kind: 1 = operation-level point (API call boundary, thread start/end), 0 = inside an operation (allocation / mapping call) */
 void sch_init(int nthreads, const int* prefix, int prefix_len);
 void sch_thread_begin(int tid);
 void sch_point(int tid);
+void sch_point_k(int tid, int kind);
+void sch_point_ks(int tid, int kind, unsigned site);   /* site: identity of the program location (call site) that reached the point */
 void sch_thread_end(int tid);
 void sch_disable(void);
 int sch_active(void);
